@@ -9,6 +9,46 @@ from harness import core
 ID = 'C09'
 TITLE = 'Metadata references always resolve'
 PROPS = ['Props/C09']
+RULE = ('random histories from harness/histgen.py with the metadata operations over-represented (AddTable/RemoveTable, '
+        'AddColumn/RemoveColumn incl. group-by sources and helper columns, AddView, CreateViewSection plain/card-like/'
+        'summary, UpdateSummaryViewSection, DetachSummaryViewSection, RemoveViewSection/RemoveView and the direct record '
+        'removals on all seven metadata tables, SetDisplayFormula set/clear on columns and fields, AddEmptyRule on '
+        'columns/fields/raw sections, direct rule updates, page moves, Ref columns, type changes, renames), bundles of '
+        '1-3 actions generated against the state before the bundle, plus scripted histories for the removal '
+        'combinations; thorough adds every ordered pair of 28 concrete actions as one bundle on a fixed document. '
+        'Every successful bundle is recorded with the metadata before each user action, before the auto-removals '
+        'and at the end. A bundle is non-trivial when it changed the modelled metadata and the model accepted all '
+        'its actions (then the model\'s predicted record sets are compared with the engine\'s)')
+TRUSTED = ['Model/MetaCascade.v is hand-written; tied on every run: for every recorded bundle the model runs the '
+           'translated actions from the engine\'s metadata before the bundle and must reproduce (all ids, parents and '
+           'reference cells of the seven tables) the metadata after the user actions, then its auto-removal loop must '
+           'reproduce the final metadata; RefsResolve evaluated in Coq on the real final metadata must agree with the '
+           'Python oracle',
+           'harness/props/c09.py translate/regroup_of: user action -> model op; the parameters the model takes from the '
+           'environment are read off the run: final table ids, column kinds (from the sanitised column ids), whether a '
+           'display helper with the same formula exists, and for summary tables the columns _get_or_create_summary '
+           'gives the table and the field moves update_summary_section makes (summary.py decides those from names, '
+           'types and formula texts, which the model does not carry)',
+           'instrumentation points Engine._apply_one_user_action, DocModel.apply_auto_removes, '
+           'SummaryActions.update_summary_section (harness-side wrappers)']
+ASSUMPTIONS = ['cascades not in the model (exercised by the oracle only): ModifyColumn type changes and the conversion of '
+               'Ref columns when their target table is removed, RenameColumn, AddReverseColumn, '
+               'DetachSummaryViewSection, chart/form sections, copies of display columns and rules made when a summary '
+               'table or a card section is created, updates propagated to sister columns of summary tables, '
+               'visibleCol/linkSrc* written directly',
+               'update_summary_section enters the model through recorded descriptors (target table, deleted/moved/new '
+               'fields); the theorems exclude the two actions that run it (C09_full is refuted with them)',
+               'direct AddRecord/UpdateRecord that write arbitrary references into metadata records are outside the '
+               'vocabulary (the engine stores them unchecked)']
+TECHNIQUE = ('Coq proof of an inductive invariant over a hand-written executable model of the metadata cascades + '
+             'per-bundle tie on real histories (vm_compute) + implementation oracle')
+LEVEL_TEXT = ('Kernel-checked: every modelled user action (tables, columns, views, sections, fields, pages, display and '
+              'rule helpers, new summary tables) keeps all metadata references resolvable, the auto-removal loop ends '
+              'with every helper column in use, hence every bundle and every reachable state; removals with '
+              'back-reference clearing leave no reference to a removed record. The full statement including '
+              'update_summary_section is refuted in Coq by the witness that also fails on the engine (known findings).')
+LEVEL_NOTE = ('Kernel strength: what summary.py decides from names/types/formulas enters as recorded parameters; '
+              'actions outside the model are covered by the oracle only (listed under assumptions).')
 DISABLED = True
 
 META_TABLES = ('_grist_Tables', '_grist_Tables_column', '_grist_Views', '_grist_Views_section',
@@ -744,6 +784,8 @@ def run_histories(ctx, nhist, nb, weights=None, seed_base=0):
         hist.append(bundle)
         out.append(dict(history=list(hist), bundle=bundle, snaps=snaps, mid=mid, final=final,
                         regroups=rec.last_regroups))
+        if refs_resolve(final):
+          break          # the document is inconsistent from here on: reported by search, history ends
   finally:
     rec.uninstall()
   return out
@@ -760,6 +802,79 @@ def case_terms(r, names):
                                   coq_meta(r['mid'], names), coq_meta(r['final'], names), core.boollit(verdict))
 
 
+def case_defs(i, r, names):
+  """One recorded bundle as Coq definitions (separate small definitions elaborate much faster than one large
+  literal): returns (text, case term)."""
+  snaps = r['snaps'] + [r['mid']]
+  ops = [translate(a, snaps[k], snaps[k + 1], names, [g for g in r.get('regroups', ()) if g['action'] == k])
+         for k, a in enumerate(r['bundle'])]
+  r['ops'] = ops
+  verdict = not [x for x in refs_resolve(r['final']) if x[0] not in EXTRA_KINDS]
+  r['verdict'] = verdict
+  metas = [coq_meta(x, names).replace('%Z', '') for x in (snaps[0], r['mid'], r['final'])]
+  return metas, core.coq_list([coq_op(o) for o in ops]).replace('%Z', ''), core.boollit(verdict)
+
+
+def run_multi(ctx, name, items, checks, shard=60, timeout=300):
+  """items: list of ([pre, mid, final] as Coq terms, ops term, verdict term); checks: list of (key, Coq term of
+  type case -> bool).  Every check is evaluated on every case by vm_compute (one coqc per shard, 8 in
+  parallel); equal states are defined once per shard.  Returns {key: sorted indexes where the check is not true}."""
+  import os
+  import re
+  import subprocess
+  paths = []
+  for k in range(0, len(items), shard):
+    part = items[k:k + shard]
+    path = os.path.join(ctx.work, 'cases_%s_%d.v' % (name, k // shard))
+    with open(path, 'w') as f:
+      f.write('From Coq Require Import ZArith List Bool.\nImport ListNotations.\n')
+      f.write('Require Import Grist.Lib.Cases Grist.Model.MetaCascade.\nOpen Scope Z_scope.\n')
+      seen = {}
+      terms = []
+      for j, (metas, ops, verdict) in enumerate(part):
+        ns = []
+        for mt in metas:
+          if mt not in seen:
+            seen[mt] = 's%d' % len(seen)
+            f.write('Definition %s : meta := %s.\n' % (seen[mt], mt))
+          ns.append(seen[mt])
+        f.write('Definition o%d : list op := %s.\n' % (j, ops))
+        terms.append('(%s, o%d, %s, %s, %s)' % (ns[0], j, ns[1], ns[2], verdict))
+      f.write('Definition the_cases := [\n  ' + ';\n  '.join(terms) + '\n].\n')
+      for key, chk in checks:
+        f.write('Goal True. idtac "@@RESULT %s". exact I. Qed.\n' % key)
+        f.write('Eval vm_compute in (failing (%s) the_cases).\n' % chk)
+      f.write('Goal True. idtac "@@END". exact I. Qed.\n')
+    paths.append((k, path))
+  res = {key: [] for key, _ in checks}
+  pending, running = list(paths), []
+
+  def start(item):
+    k, path = item
+    p = subprocess.Popen(['timeout', str(timeout), 'coqc', '-w', '-notation-overridden,-deprecated',
+                          '-Q', os.path.join(core.COQ, 'theories'), 'Grist', path],
+                         stdout=subprocess.PIPE, stderr=subprocess.STDOUT, cwd=ctx.work)
+    return (k, path, p)
+  while pending or running:
+    while pending and len(running) < 8:
+      running.append(start(pending.pop(0)))
+    k, path, p = running.pop(0)
+    out = p.communicate()[0].decode('utf8', 'replace')
+    if p.returncode != 0 or '@@END' not in out:
+      for (_k, _p, q) in running:
+        q.kill()
+      raise core.TieBroken('cases file %s does not evaluate: %s' % (os.path.basename(path), out[-1500:]))
+    for key, _ in checks:
+      seg = out.split('@@RESULT %s' % key, 1)[1].split('@@', 1)[0]
+      mm = re.search(r'=\s*\[(.*?)\]\s*:\s*list nat', seg, re.S)
+      if not mm:
+        raise core.TieBroken('cannot parse result %s of %s: %s' % (key, os.path.basename(path), seg[-400:]))
+      body = mm.group(1).strip()
+      if body:
+        res[key].extend(k + int(tok.strip().replace('%nat', '')) for tok in body.split(';'))
+  return {key: sorted(v) for key, v in res.items()}
+
+
 # issues the Python oracle reports beyond the Coq boolean (columns the model does not carry)
 EXTRA_KINDS = ('table.no-record-card', 'section.linkSrcCol', 'section.linkTargetCol', 'section.linkSrcSectionRef')
 
@@ -770,6 +885,212 @@ CHECK_AUTO = ('fun c => match c with (pre, ops, mid, fin, v) => '
               'match auto_fix (fuel_of mid) mid with Ok m => meta_eqb m fin | Unmodelled => true | Fail => false end end')
 CHECK_AUTO_OK = 'fun c => match c with (pre, ops, mid, fin, v) => res_ok (auto_fix (fuel_of mid) mid) end'
 CHECK_ORACLE = 'fun c => match c with (pre, ops, mid, fin, v) => Bool.eqb (RefsResolve fin) v end'
+
+
+# ------------------------------------------------------------------------------------------------
+# the check
+
+CHECKS = [('steps', CHECK_STEPS), ('auto', CHECK_AUTO), ('oracle', CHECK_ORACLE), ('stepsok', CHECK_STEPS_OK),
+          ('autook', CHECK_AUTO_OK)]
+
+BASE_DOC = [[['AddTable', 'T', [{'id': 'A', 'type': 'Text'}, {'id': 'B', 'type': 'Text'}]]],
+            [['CreateViewSection', 1, 0, 'record', [3], None]]]
+
+# scripted histories aimed at the cascades that only fire for particular combinations (each is replayed from a
+# new document; the last bundle is the one under test)
+TARGETED = [
+  BASE_DOC + [[['RemoveColumn', 'T', 'B'], ['AddColumn', 'T_summary_B', 'Y', {'isFormula': True, 'formula': '1'}]]],
+  BASE_DOC + [[['RemoveColumn', 'T', 'B'], ['AddView', 'T_summary_B', 'raw_data', 'V']]],
+  BASE_DOC + [[['RemoveColumn', 'T', 'B'], ['CreateViewSection', 2, 0, 'record', None, None]]],
+  BASE_DOC + [[['RemoveColumn', 'T', 'B']]],
+  BASE_DOC + [[['AddRecord', '_grist_Views_section_field', None, {'parentId': 5, 'colRef': 6}]],
+              [['UpdateSummaryViewSection', 5, []]]],
+  BASE_DOC + [[['AddRecord', '_grist_Views_section_field', None, {'parentId': 5, 'colRef': 4}]],
+              [['UpdateSummaryViewSection', 5, [2, 3]]]],
+  BASE_DOC + [[['RemoveViewSection', 5]]],
+  BASE_DOC + [[['RemoveView', 2]]],
+  BASE_DOC + [[['RemoveTable', 'T']]],
+  BASE_DOC + [[['RemoveColumn', 'T', 'A'], ['RemoveColumn', 'T', 'B']]],
+  BASE_DOC + [[['SetDisplayFormula', 'T', None, 2, '$B']], [['RemoveColumn', 'T', 'B']]],
+  BASE_DOC + [[['AddEmptyRule', 'T', 0, 2], ['AddEmptyRule', 'T', 1, 0], ['AddEmptyRule', 'T', 0, 0]],
+              [['RemoveColumn', 'T', 'A']]],
+  BASE_DOC + [[['AddEmptyRule', 'T', 0, 0]], [['UpdateRecord', '_grist_Views_section', 2, {'rules': None}]]],
+  BASE_DOC + [[['UpdateSummaryViewSection', 5, [2]], ['UpdateSummaryViewSection', 5, [3]]]],
+  BASE_DOC + [[['DetachSummaryViewSection', 5]]],
+]
+
+
+SCOPE_DOC = [[['AddTable', 'T', [{'id': 'A', 'type': 'Text'}, {'id': 'B', 'type': 'Text'}]]],
+             [['AddTable', 'U', [{'id': 'X', 'type': 'Text'}]], ['AddColumn', 'U', 'r', {'type': 'Ref:T', 'isFormula': False}]],
+             [['CreateViewSection', 1, 0, 'record', [3], None]],
+             [['SetDisplayFormula', 'U', None, 6, '$r.A'], ['AddEmptyRule', 'T', 0, 2]]]
+# after SCOPE_DOC: tables 1 T, 2 U, 3 T_summary_B; columns 1-3 (T), 4-6 (U: manualSort, X, r), 7-9 (summary: B,
+# group, count), 10 display helper (U), 11 rule helper (T); views 1, 2, 3; sections 1-3 (T), 4-6 (U), 7 raw and 8 (summary)
+SCOPE_ACTIONS = [
+  ['RemoveColumn', 'T', 'A'], ['RemoveColumn', 'T', 'B'], ['RemoveColumn', 'U', 'r'], ['RemoveColumn', 'U', 'X'],
+  ['RemoveColumn', 'U', 'gristHelper_Display'], ['RemoveColumn', 'T', 'gristHelper_ConditionalRule'],
+  ['RemoveTable', 'T'], ['RemoveTable', 'U'], ['RemoveTable', 'T_summary_B'],
+  ['AddColumn', 'T', 'C', {'type': 'Int', 'isFormula': False}],
+  ['AddColumn', 'T_summary_B', 'Y', {'isFormula': True, 'formula': '1'}],
+  ['AddView', 'T', 'raw_data', 'V'], ['AddView', 'T_summary_B', 'raw_data', 'V'],
+  ['CreateViewSection', 1, 1, 'record', None, None], ['CreateViewSection', 3, 0, 'single', None, None],
+  ['CreateViewSection', 1, 2, 'record', [], None], ['CreateViewSection', 1, 0, 'record', [2, 3], None],
+  ['UpdateSummaryViewSection', 8, []], ['UpdateSummaryViewSection', 8, [2]],
+  ['RemoveViewSection', 8], ['RemoveViewSection', 1], ['RemoveView', 3], ['RemoveView', 1],
+  ['SetDisplayFormula', 'U', None, 6, ''], ['SetDisplayFormula', 'T', None, 3, '$A'],
+  ['AddEmptyRule', 'T', 0, 0], ['UpdateRecord', '_grist_Tables_column', 2, {'rules': None}],
+  ['BulkRemoveRecord', '_grist_Pages', [1, 3]],
+]
+
+
+def small_scope(ctx):
+  """Thorough tier: every ordered pair of SCOPE_ACTIONS as one bundle on the fixed document SCOPE_DOC."""
+  rec = Recorder()
+  out = []
+  try:
+    for a in SCOPE_ACTIONS:
+      for b in [None] + SCOPE_ACTIONS:
+        bundle = [a] if b is None else [a, b]
+        r = replay_history(SCOPE_DOC + [copy.deepcopy(bundle)], rec)
+        if r is None:
+          ctx.bump('small-scope bundles failed')
+          continue
+        r['targeted'] = True
+        out.append(r)
+  finally:
+    rec.uninstall()
+  ctx.extra['exhaustive'] = True
+  ctx.extra['exhaustive_space'] = ('all bundles of one or two actions from %d concrete actions on a fixed document '
+                                   '(2 tables, Ref column, summary table, display and rule helpers)' % len(SCOPE_ACTIONS))
+  return out
+
+
+def classify(r, issues):
+  """Failure mode of a bundle after which the oracle reports issues (narrow kinds for the known root causes)."""
+  for g in r.get('regroups', ()):
+    cols = [f['col'] for f in g['pre']['fields'] if f['section'] == g['sec']]
+    if len(cols) != len(set(cols)):
+      return 'duplicate-field-regrouped'
+  for g in r.get('regroups', ()):
+    if any(t['raw'] == g['sec'] for t in g['pre']['tables']):
+      if all(i[0] in ('field.colRef', 'field.colRef-other-table', 'table.raw-of-other-table',
+                      'table.rawViewSectionRef') for i in issues):
+        return 'raw-section-regrouped'
+  return 'oracle:' + issues[0][0]
+
+
+def replay_history(history, rec=None):
+  """Runs the bundles from a new document; returns the record of the last bundle (None if a bundle fails)."""
+  g = G()
+  own = rec is None
+  rec = rec or Recorder()
+  try:
+    e, _ = g.new_doc()
+    r = None
+    for b in history:
+      try:
+        _, snaps, mid, final = rec.run(e, copy.deepcopy(b))
+      except core.TieBroken:
+        raise
+      except Exception:
+        return None
+      r = dict(history=history, bundle=b, snaps=snaps, mid=mid, final=final, regroups=rec.last_regroups)
+    return r
+  finally:
+    if own:
+      rec.uninstall()
+
+
+def collect(ctx):
+  """All recorded bundles of this run (random histories + targeted ones), cached on ctx."""
+  if getattr(ctx, '_c09_records', None) is not None:
+    return ctx._c09_records
+  recs = run_histories(ctx, ctx.n(22, 400), ctx.n(10, 14))
+  ctx.log('recorded %d bundles of random histories on the engine' % len(recs))
+  for h in TARGETED:
+    r = replay_history(h)
+    if r is not None:
+      r['targeted'] = True
+      recs.append(r)
+  if ctx.tier == 'thorough':
+    recs.extend(small_scope(ctx))
+  ctx._c09_records = recs
+  return recs
+
+
+def correspond(ctx):
+  recs = collect(ctx)
+  names = Names()
+  items = [case_defs(i, r, names) for i, r in enumerate(recs)]
+  res = run_multi(ctx, 'tie', items, CHECKS, shard=ctx.n(32, 80))
+  ctx.log('model evaluated on %d bundles in Coq: %s' % (len(items), {k: len(v) for k, v in res.items()}))
+  not_ok = set(res['stepsok'])
+  for i, r in enumerate(recs):
+    meta_ops = [o[0] for o in r['ops'] if o[0] not in ('ONoMeta', 'OUnmodelled')]
+    modelled = i not in not_ok
+    changed = r['snaps'][0] != r['final']
+    ctx.count((i, json.dumps(r['bundle'], sort_keys=True, default=repr)), nontrivial=modelled and changed,
+              sample={'bundle': r['bundle'], 'ops': [repr(o) for o in r['ops']]} if modelled and changed else None,
+              kind='modelled' if modelled else 'outside the modelled fragment')
+    for o in r['ops']:
+      ctx.bump('op ' + o[0])
+    if r['mid'] != r['final']:
+      ctx.bump('bundles with auto-removals')
+  for key, what in (('steps', 'model step differs from the metadata after the user actions'),
+                    ('auto', 'model auto-removal loop differs from the final metadata'),
+                    ('oracle', 'RefsResolve in Coq on the real metadata differs from the Python oracle')):
+    for i in res[key][:5]:
+      ctx.broken('correspondence:%s' % what,
+                 'history %s ops %s' % (json.dumps(recs[i]['history'], default=repr), [repr(o) for o in recs[i]['ops']]))
+  ctx.extra['bundles'] = len(recs)
+  ctx.extra['bundles_fully_modelled'] = len(recs) - len(not_ok)
+  ctx.extra['auto_fix_unmodelled'] = len(res['autook'])
+
+
+def shrink_history(history, still_fails):
+  from harness import histgen
+  if len(history) <= 1:
+    return history
+  head = histgen.shrink_list(history[:-1], lambda h: still_fails(h + [history[-1]])) if len(history) > 2 else history[:-1]
+  if not still_fails(head + [history[-1]]):
+    head = history[:-1]
+  if still_fails([history[-1]]):
+    head = []
+  return head + [history[-1]]
+
+
+def search(ctx):
+  recs = collect(ctx)
+  seen = set()
+  for r in recs:
+    issues = refs_resolve(r['final'])
+    if not issues:
+      continue
+    kind = classify(r, issues)
+    if kind in seen and not kind.startswith('oracle:'):
+      continue
+    seen.add(kind)
+
+    def fails(h, kind=kind):
+      rr = replay_history(h)
+      if rr is None:
+        return False
+      iss = refs_resolve(rr['final'])
+      return bool(iss) and classify(rr, iss) == kind
+    hist = r['history'] if r.get('targeted') else shrink_history(r['history'], fails)
+    ctx.violation(kind, 'after %s: %s' % (json.dumps(r['bundle'], default=repr), issues[:3]), {'history': hist})
+    if len(ctx.violations) > 12:
+      break
+
+
+def replay(ctx, w):
+  r = replay_history(w['history'])
+  if r is None:
+    return None
+  issues = refs_resolve(r['final'])
+  if not issues:
+    return None
+  return '%s: %s' % (classify(r, issues), issues[:3])
 
 
 # ==== end ====
